@@ -51,6 +51,11 @@ def gen_cases(tier, seed):
                     cid = "status-%s-%s-m%d-%s" % (top.split(":")[-1], second.split(":")[-1] or "empty", msg, assertion)
                     cases.append({"id": cid, "sig": ["status", top, second, msg, assertion], "kind": "status", "top": top, "second": second,
                                   "msg": msg, "assertion": assertion})
+    # no statement of success at all: the Status element, or its StatusCode, is missing
+    for top in ("<no Status element>", "<Status without StatusCode>", "<StatusCode without Value>"):
+        for assertion in ("none", "signed"):
+            cases.append({"id": "status-missing:%s-%s" % (top, assertion), "sig": ["status-missing", top, assertion], "kind": "status", "top": top, "second": "<absent>",
+                          "msg": 0, "assertion": assertion})
     for top in TOP_NEAR:
         for second in ("<absent>", "RequestDenied"):
             for assertion in ("none", "signed"):
@@ -91,7 +96,14 @@ def run_case(case, ctx):
                 inner = '<%s:StatusCode Value="%s">%s</%s:StatusCode>' % (p, _urn(code), inner, p) if inner else '<%s:StatusCode Value="%s"/>' % (p, _urn(code))
         status = '<%s:Status><%s:StatusCode Value="%s">%s</%s:StatusCode>%s</%s:Status>' % (
             p, p, _urn(case["top"]), inner, p, ("<%s:StatusMessage>something went wrong</%s:StatusMessage>" % (p, p)) if case["msg"] else "", p)
-        d = d.replace(st, status)
+        if case["top"] == "<no Status element>":
+            d = d.remove(st)
+        elif case["top"] == "<Status without StatusCode>":
+            d = d.replace(st, "<%s:Status><%s:StatusMessage>x</%s:StatusMessage></%s:Status>" % (p, p, p, p))
+        elif case["top"] == "<StatusCode without Value>":
+            d = d.replace(st, "<%s:Status><%s:StatusCode/></%s:Status>" % (p, p, p))
+        else:
+            d = d.replace(st, status)
         if case["assertion"] == "none":
             d = d.remove(d.find(xk.SAML, "Assertion")[0])
         doc = d.text()
@@ -110,7 +122,9 @@ def run_case(case, ctx):
                     want = None
                 want = want or "StatusError"
                 got = type(exc).__name__ if exc is not None else "None"
-                if exc is None:
+                if case["top"].startswith("<"):
+                    pass      # no status to name a class for: any refusal will do
+                elif exc is None:
                     viol.append({"key": "C06/non-success-response-returns-none-instead-of-error", "what": desc})
                 elif got != want:
                     key = "C06/wrong-status-error-class"
